@@ -10,7 +10,7 @@ sys.path.insert(0, os.path.dirname(os.path.abspath(__file__)))
 GROUP = {
     'C19': 'chk_ident', 'C14': 'chk_noise', 'C09': 'chk_library', 'C10': 'chk_library', 'C16': 'chk_surface', 'C17': 'chk_surface', 'C12': 'chk_kernel', 'C13': 'chk_kernel',
     'C01': 'chk_circuit', 'C02': 'chk_circuit', 'C04': 'chk_circuit', 'C05': 'chk_circuit', 'C06': 'chk_circuit',
-    'C07': 'chk_circuit', 'C08': 'chk_circuit', 'C15': 'chk_circuit', 'C11': 'chk_circuit', 'C03': 'chk_circuit',
+    'C07': 'chk_circuit', 'C08': 'chk_circuit', 'C18': 'chk_circuit', 'C15': 'chk_circuit', 'C11': 'chk_circuit', 'C03': 'chk_circuit',
 }
 
 
